@@ -338,6 +338,10 @@ func (e *Engine) listen(ln net.Listener, tlsConfig *tls.Config, addConn func(*Co
 			conn, err := ln.Accept()
 			if err == nil && !e.shutdown {
 				addConn(&Conn{Conn: conn}, tlsConfig, decrease)
+			} else if err == nil {
+				// accepted while shutting down: nobody would ever close it.
+				_ = conn.Close()
+				decrease()
 			} else {
 				var ne net.Error
 				if ok := errors.As(err, &ne); ok && ne.Timeout() {
